@@ -5,7 +5,7 @@
    `wf` excludes keywords as path heads and a reference whose referent is again a reference (known finding D10: the real parser panics on `Option<&'a &'a u8>`).
    That rustc accepts the expansion (trait resolution, lifetimes, hygiene) cannot be modelled here; it is TESTED by compiling generated declarations. *)
 From Coq Require Import List Arith String.
-Require Import P.ParseModel P.ParseGrammar P.ParseProof.
+Require Import P.ParseModel P.ParseGrammar P.ParseProof P.ParsePrintModel P.ParsePrint.
 Theorem parse_complete : forall t rest, wf t -> stop rest -> next_type (S (depth t)) (lex t ++ rest) = Ok (Some (embed t)) rest.
 Proof. exact ParseProof.parse_complete. Qed.
 (* what the templates consume of an `Option<X>` field: the base name and the wrapped type *)
@@ -16,9 +16,16 @@ Proof.
   intros x rest W S. pose proof (ParseProof.parse_complete (GPath "Option" nil (x :: nil)) rest) as H.
   cbn [depth fold_right] in H. rewrite Nat.max_0_r in H. apply H; [cbn; auto|exact S].
 Qed.
+(* the printer (Type::full, as spliced into the generated source and lexed again by rustc): parse, then print = the tokens the user wrote;
+   the context is left untouched. Covers every well-formed type: paths with nested generics, references, tuples (unit and 1-tuples with their
+   trailing comma included), arrays with literal or named length, lifetimes, never. *)
+Theorem print_parse_roundtrip : forall t rest, wf t -> stop rest ->
+  exists r, next_type (S (depth t)) (lex t ++ rest) = Ok (Some r) rest /\ pr r = lex t.
+Proof. exact ParsePrint.print_parse_roundtrip. Qed.
 (* the finding the proof produced: `&&T` is not consumed as one type (the real parser then panics on the leftover) *)
 Example nested_ref_not_one_type :
   next_type 5 (lex (GRef None (GRef None (GPath "T" nil nil)))) = Ok (Some (Ty CUnNamed None (Some None) None)) (TP PAmp :: TId "T" :: nil).
 Proof. reflexivity. Qed.
 Print Assumptions parse_complete.
 Print Assumptions option_is_recognised.
+Print Assumptions print_parse_roundtrip.
